@@ -15,7 +15,7 @@ OPT = {"int": ("i", "il"), "float": ("f", "fl"), "bool": ("b", "bl")}
 INT_ALPHA = ["0", "1", "7", "8", "9", "a", "f", "x", "b", "X", "+", "-", ".", "e", " "]
 FLT_ALPHA = ["0", "1", "9", ".", "e", "E", "+", "-", "x", "p", "n", "a", "i", "f", " "]
 ERRNOS = [0, 34, 22, 33]          # none, ERANGE, EINVAL, EDOM
-ROUTES = ["parse", "setmulti", "setopt", "parse-list", "setmulti-list"]
+ROUTES = ["parse", "setmulti", "setopt", "parse-list", "setmulti-list", "parse-list-bare", "parse-list-append"]
 LONG_MAX = 2 ** 63 - 1
 
 
@@ -65,7 +65,7 @@ class C04:
     level = "exploration"
     variants = ("fast", "asan")
     rule = ("every token up to length 4 (quick) / 5 (thorough) over the numeral alphabets (integers: 0 1 7 8 9 a f x b X + - "
-            ". e blank; floats: 0 1 9 . e E + - x p n a i f blank) through five routes (parser scalar, parser list element, "
+            ". e blank; floats: 0 1 9 . e E + - x p n a i f blank) through seven routes (parser scalar, parser list element, list assigned / appended one value without braces, "
             "cfg_setmulti scalar/list, cfg_setopt) under four ambient errno values (0, ERANGE, EINVAL, EDOM); length 5 "
             "(quick) / 6 (thorough) through the parser route; boundary numerals around LONG_MIN/LONG_MAX in four radices, "
             "DBL_MAX, huge numerals; all case variants and one-edit neighbours of the six boolean words. Oracle: three-"
@@ -93,6 +93,10 @@ class C04:
                 ip = s.add("parse_buf", 1, hx("%s = %s\n" % (name, quote(tok))))
             elif route == "parse-list":
                 ip = s.add("parse_buf", 1, hx("%s = {%s}\n" % (lname, quote(tok))))
+            elif route == "parse-list-bare":            # a list assigned one value without braces
+                ip = s.add("parse_buf", 1, hx("%s = %s\n" % (lname, quote(tok))))
+            elif route == "parse-list-append":
+                ip = s.add("parse_buf", 1, hx("%s = {}\n%s += %s\n" % (lname, lname, quote(tok))))
             elif route == "setmulti":
                 ip = s.add("setmulti", 1, hx(name), 1, hx(tok))
             elif route == "setmulti-list":
@@ -110,7 +114,7 @@ class C04:
         e = t[ip]
         ok = (e.get("rc") == 0) if "rc" in e else bool(e.get("ok"))
         exp = {"int": conv_int, "float": conv_float, "bool": conv_bool}[kind](tok)
-        name = OPT[kind][1 if route.endswith("list") else 0]
+        name = OPT[kind][1 if "list" in route else 0]
         vals = None
         for o in t[idd]["tree"]["opts"]:
             if bytes.fromhex(o["n"]).decode() == name:
